@@ -1921,4 +1921,150 @@ theorem fromOpenAI_one_image (l : List OMsg) : ∀ m ∈ fromOpenAI l, m.images.
     cases p <;> simp [partMsg]
 
 
+
+/-! ### the header template at the level of pieces (round 7) -/
+
+/-- `strings.Join(…, "\n\n")` at the level of pieces -/
+def joinP : List (List Piece) → List Piece
+  | [] => []
+  | [x] => x
+  | x :: y :: xs => x ++ [Piece.lit sep2] ++ joinP (y :: xs)
+
+theorem joinSep_renderPieces : ∀ cs : List (List Piece),
+    joinSep sep2 (cs.map renderPieces) = renderPieces (joinP cs) := by
+  intro cs
+  induction cs with
+  | nil => rfl
+  | cons x xs ih =>
+    cases xs with
+    | nil => rfl
+    | cons y ys =>
+      simp only [List.map_cons, joinSep, joinP, renderPieces_append] at ih ⊢
+      rw [ih]
+      simp [renderPieces, renderPiece]
+
+theorem joinP_clean : ∀ cs : List (List Piece), (∀ c ∈ cs, cleanPieces c = true) → cleanPieces (joinP cs) = true := by
+  intro cs
+  induction cs with
+  | nil => intro _; rfl
+  | cons x xs ih =>
+    intro h
+    cases xs with
+    | nil => exact h x (by simp)
+    | cons y ys =>
+      simp only [joinP, cleanPieces_append, h x (by simp), ih (fun c hc => h c (by simp [hc])), Bool.and_true, Bool.true_and]
+      decide
+
+theorem joinP_tags : ∀ cs : List (List Piece), tagsOf (joinP cs) = cs.flatMap tagsOf := by
+  intro cs
+  induction cs with
+  | nil => rfl
+  | cons x xs ih =>
+    cases xs with
+    | nil => simp [joinP]
+    | cons y ys =>
+      simp only [joinP, tagsOf_append, ih, List.flatMap_cons]
+      simp [tagsOf]
+
+theorem tagsOf_of_render_nil : ∀ c : List Piece, renderPieces c = [] → tagsOf c = [] := by
+  intro c
+  induction c with
+  | nil => intro _; rfl
+  | cons p c ih =>
+    intro h
+    have e : renderPieces (p :: c) = renderPiece p ++ renderPieces c := by simp [renderPieces]
+    rw [e] at h
+    have h1 := List.append_eq_nil_iff.mp h
+    cases p with
+    | tag k => simp [renderPiece, bImgDash] at h1
+    | lit b => simpa [tagsOf] using ih h1.2
+    | slot => simp [renderPiece, bImg] at h1
+    | mm => simp [renderPiece, bMM] at h1
+
+/-- header template: body of the range for one merged message, as pieces -/
+def headerP (m : PMsg) : List Piece := if m.1 = Role.system then [] else inPlaceP m
+
+theorem headerP_tags (m : PMsg) : tagsOf (headerP m) = if m.1 = Role.system then [] else tagsOf m.2 := by
+  unfold headerP
+  split
+  · rfl
+  · exact inPlaceP_tags m
+
+theorem collateP_tags_nonsys : ∀ l : List PMsg,
+    (collateP l).flatMap (fun m => tagsOf (headerP m)) = l.flatMap (fun m => tagsOf (headerP m)) := by
+  intro l
+  simp only [headerP_tags]
+  induction l with
+  | nil => rfl
+  | cons a l ih =>
+    obtain ⟨r, c⟩ := a
+    simp only [collateP, List.flatMap_cons]
+    rw [← ih]
+    cases hc : collateP l with
+    | nil => simp
+    | cons b tl =>
+      obtain ⟨r', c'⟩ := b
+      by_cases hr : r = r'
+      · subst hr
+        by_cases hs : r = Role.system
+        · simp [hs]
+        · simp only [hs, if_false, if_true, List.flatMap_cons, tagsOf_append]
+          simp [tagsOf]
+      · simp [hr]
+
+theorem headerP_clean (m : PMsg) (h : cleanPieces m.2 = true) : cleanPieces (headerP m) = true := by
+  unfold headerP
+  split
+  · rfl
+  · exact inPlaceP_clean m h
+
+
+def isSysP (m : PMsg) : Bool := decide (m.1 = Role.system)
+
+theorem headerP_render (m : PMsg) :
+    renderPieces (headerP m) =
+      if (rp m).1 = Role.system then [] else [91] ++ (roleName (rp m).1 ++ ([124] ++ ((rp m).2 ++ ([93] ++ [])))) := by
+  unfold headerP
+  by_cases h : m.1 = Role.system
+  · simp [h, rp, renderPieces]
+  · simp only [h, if_false, rp]
+    exact inPlaceP_render m
+
+theorem collate_system_pieces (l : List PMsg) :
+    (collate (l.map rp)).1 = renderPieces (joinP ((l.filter isSysP).map (·.2))) := by
+  unfold collate
+  simp only
+  rw [← joinSep_renderPieces]
+  congr 1
+  induction l with
+  | nil => rfl
+  | cons a l ih =>
+    obtain ⟨r, c⟩ := a
+    by_cases h : r = Role.system
+    · simp [List.filter_cons, rp, isSysP, h, ih]
+    · simp [List.filter_cons, rp, isSysP, h, ih]
+
+theorem count_partition (k : Nat) : ∀ l : List PMsg,
+    (((l.filter isSysP).map (·.2)).flatMap tagsOf).count k +
+      (l.flatMap (fun m => tagsOf (headerP m))).count k = (l.flatMap (fun m => tagsOf m.2)).count k := by
+  intro l
+  induction l with
+  | nil => rfl
+  | cons a l ih =>
+    obtain ⟨r, c⟩ := a
+    by_cases h : r = Role.system
+    · have e1 : List.filter isSysP ((r, c) :: l) = (r, c) :: List.filter isSysP l := by
+        simp [List.filter_cons, isSysP, h]
+      have e2 : tagsOf (headerP (r, c)) = [] := by simp [headerP_tags, h]
+      rw [e1]
+      simp only [List.map_cons, List.flatMap_cons, List.count_append, e2, List.count_nil]
+      omega
+    · have e1 : List.filter isSysP ((r, c) :: l) = List.filter isSysP l := by
+        simp [List.filter_cons, isSysP, h]
+      have e2 : tagsOf (headerP (r, c)) = tagsOf c := by simp [headerP_tags, h]
+      rw [e1]
+      simp only [List.flatMap_cons, List.count_append, e2]
+      omega
+
+
 end OllamaVerif.Prompt
